@@ -59,7 +59,7 @@ Proof.
   destruct c; [cbn; destruct g; cbn; lia|].
   destruct o as [|p| |]; cbn [fst snd].
   - destruct g; cbn; lia.
-  - destruct p; cbn; destruct g; cbn; lia.
+  - destruct (Nat.ltb (length p) 8); cbn; destruct g; cbn; lia.
   - cbn. destruct g; cbn; lia.
   - destruct (11 <=? e)%N; cbn; destruct g; cbn; lia.
 Qed.
@@ -111,15 +111,14 @@ Qed.
 (* ---- echo -------------------------------------------------------------------------------------- *)
 
 Theorem echo_identical adv on pre p post :
-  closed (final adv on pre) = false -> p <> [] ->
+  closed (final adv on pre) = false -> (8 <= length p)%nat ->
   exists rest, outs adv on (pre ++ Ping p :: post) = outs adv on pre ++ [OEcho p; OClose] :: rest
             /\ concat rest = [].
 Proof.
   unfold final, outs, run. intros Hc Hp. rewrite run_from_app. cbn [snd].
   set (s := fst (run_from adv on init pre)) in *.
-  destruct p as [|b p']; [congruence|].
-  assert (E : step adv on s (Ping (b :: p')) = (mkSt (got_req s) true 0, [OEcho (b :: p'); OClose])).
-  { unfold step. rewrite Hc. reflexivity. }
+  assert (E : step adv on s (Ping p) = (mkSt (got_req s) true 0, [OEcho p; OClose])).
+  { unfold step. rewrite Hc. replace (Nat.ltb (length p) 8) with false by (symmetry; apply Nat.ltb_ge; exact Hp). reflexivity. }
   rewrite run_from_cons, E. cbn [fst snd].
   eexists. split; [reflexivity|].
   apply closed_is_absorbing. reflexivity.
@@ -134,7 +133,7 @@ Proof.
   - left. unfold step in H. destruct (closed s); [cbn in H; contradiction|].
     destruct o as [|q| |]; cbn [snd] in H.
     + destruct (got_req s); cbn in H; intuition congruence.
-    + destruct q; cbn in H; intuition congruence.
+    + destruct (Nat.ltb (length q) 8); cbn in H; intuition congruence.
     + cbn in H; intuition congruence.
     + destruct (11 <=? empties s)%N; cbn in H; intuition congruence.
   - right. eapply IH; eassumption.
@@ -160,7 +159,7 @@ Lemma step_closing adv on s o : closed s = false -> closing s o = true ->
 Proof.
   intros Hc Hcl. unfold step. rewrite Hc. destruct o as [|p| |]; cbn [closing] in Hcl.
   - rewrite Hcl. cbn. repeat split; congruence.
-  - destruct p; cbn; repeat split; congruence.
+  - destruct (Nat.ltb (length p) 8); cbn; repeat split; congruence.
   - cbn. repeat split; congruence.
   - rewrite Hcl. cbn. repeat split; congruence.
 Qed.
@@ -192,7 +191,7 @@ Proof.
     rewrite run_from_cons in *. cbn [fst] in *. apply IH; [|exact Hc].
     unfold step. destruct (closed t); [exact Ht|]. destruct o as [|q| |]; cbn [fst got_req].
     - rewrite Ht. reflexivity.
-    - destruct q; exact Ht.
+    - destruct (Nat.ltb (length q) 8); exact Ht.
     - exact Ht.
     - destruct (11 <=? empties t)%N; exact Ht. }
   intro Hc. apply Hg; [|exact Hc].
@@ -243,10 +242,15 @@ Proof.
   intro H. unfold spec_advertised. destruct (memZ p sup) eqn:E; [apply memZ_In in E; contradiction|reflexivity].
 Qed.
 
-Lemma impl_eq_spec_off_trigger sup p :
-  ~ In (-1) sup -> trigger_unsupported sup p = false -> impl_advertised sup p = spec_advertised sup p.
+(* the code's choice IS the demanded one, for every protocol number and every version list *)
+Lemma impl_eq_spec sup p : impl_advertised sup p = spec_advertised sup p.
+Proof. reflexivity. Qed.
+
+(* ---- facts about the PRE-FIX code (before c892351), kept for the record ------------------------- *)
+Lemma prefix_impl_eq_spec_off_trigger sup p :
+  ~ In (-1) sup -> trigger_unsupported sup p = false -> prefix_impl_advertised sup p = spec_advertised sup p.
 Proof.
-  unfold trigger_unsupported, impl_advertised, registry_protocol, spec_advertised. intros Hm Ht.
+  unfold trigger_unsupported, prefix_impl_advertised, registry_protocol, spec_advertised. intros Hm Ht.
   apply negb_false_iff in Ht. rewrite Ht. destruct (Z.eqb_spec p (-1)) as [->|]; [|reflexivity].
   apply memZ_In in Ht. contradiction.
 Qed.
@@ -256,10 +260,10 @@ Definition gate_supported : list Z :=
   [4;5;47;107;108;110;210;315;316;335;338;340;393;404;477;573;735;736;751;753;754;755;756;757;758;759;
    760;761;762;763;764;765;766;767;768;769;770;771;772;773;774;775;776].
 
-Lemma advertised_refuted :
+Lemma prefix_advertised_refuted :
   exists sup p, trigger_unsupported sup p = true /\
-    impl_advertised sup p <> spec_advertised sup p /\
-    holds_C43 (spec_advertised sup p) 0 [Req] (outs (impl_advertised sup p) 0 [Req]) = false.
+    prefix_impl_advertised sup p <> spec_advertised sup p /\
+    holds_C43 (spec_advertised sup p) 0 [Req] (outs (prefix_impl_advertised sup p) 0 [Req]) = false.
 Proof. exists gate_supported, 999999. vm_compute. repeat split; congruence. Qed.
 
 (* ---- the models satisfy / reproduce the property predicate --------------------------------------- *)
@@ -280,9 +284,12 @@ Proof.
   - cbn [fst snd beq_list andb]. apply IH.
   - destruct o as [|p| |].
     + destruct g; cbn [fst snd]; rewrite beq_list_refl by apply beq_out_refl; cbn [andb]; apply IH.
-    + destruct p as [|b p']; cbn [fst snd].
-      * cbn. apply IH.
-      * rewrite (beq_list_refl beq_out beq_out_refl [OEcho (b :: p'); OClose]). cbn [orb andb]. apply IH.
+    + destruct (Nat.ltb (length p) 8) eqn:El; cbn [fst snd].
+      * replace (beq_list beq_out [OClose] [OEcho p; OClose]) with false by reflexivity.
+        apply Nat.ltb_lt in El.
+        replace (8 <=? Z.of_nat (length p)) with false by (symmetry; apply Z.leb_gt; lia).
+        cbn [orb negb andb beq_list beq_out]. apply IH.
+      * rewrite (beq_list_refl beq_out beq_out_refl [OEcho p; OClose]). cbn [orb andb]. apply IH.
     + cbn [fst snd]. rewrite beq_list_refl by apply beq_out_refl. cbn [andb]. apply IH.
     + destruct (11 <=? e)%N; cbn [fst snd].
       * replace (beq_list beq_out [OClose] []) with false by reflexivity.
@@ -300,7 +307,7 @@ Example c43_example :
   quiet [Empty; Empty] = true /\
   closing (final 763 2 [Req]) Req = true /\ closed (final 763 2 [Req]) = false /\
   spec_advertised gate_supported 763 = 763 /\ spec_advertised gate_supported 999999 = 776 /\
-  impl_advertised gate_supported 999999 = 4.
+  impl_advertised gate_supported 999999 = 776 /\ prefix_impl_advertised gate_supported 999999 = 4.
 Proof. vm_compute. repeat split; reflexivity. Qed.
 
 (* the response to the first request advertises the demanded protocol and the given player count *)
